@@ -886,11 +886,12 @@ Proof. intros E S N. unfold name_ok. now rewrite E, S, N. Qed.
 Lemma name_ok_accepted i o isv isu name :
   o_err o <> EInvalid -> o_err o <> EEmpty -> safe_name name = true ->
   contained i o (Some (allowed (i_root i) name)) None = true ->
-  o_written o = [] -> (if isu then o_exec o = [] else o_removed o = []) ->
+  o_written o = [] -> (isu = true -> o_exec o = []) -> (isu = false -> o_removed o = []) ->
   name_ok i o isv isu name = true.
 Proof.
-  intros N1 N2 S C Wr X. unfold name_ok. rewrite S, C, Wr. cbn.
-  destruct (o_err o); try congruence; destruct isu; now rewrite X.
+  intros N1 N2 S C Wr X Y. unfold name_ok. rewrite S, C, Wr. cbn.
+  destruct (o_err o); try congruence; destruct isu;
+    try (now rewrite (X eq_refl)); now rewrite (Y eq_refl).
 Qed.
 
 Lemma model_no_effects i :
@@ -915,7 +916,7 @@ Proof.
       destruct H as [(O & _) | [(O & _) | (O & -> & ->)]]; try congruence.
       apply name_ok_blank; [exact E | exact Sp | now apply model_no_effects].
     + assert (E : r_err (exec_op i) <> EEmpty) by (intros E; rewrite E in EE; discriminate).
-      apply name_ok_accepted; auto; [now apply valid_name_safe | |].
+      apply name_ok_accepted; auto; [now apply valid_name_safe | | |].
       * (* nothing is written *)
         unfold model. cbn.
         destruct (existsb mutating (r_log (exec_op i))) eqn:M; [|reflexivity].
@@ -929,12 +930,16 @@ Proof.
            ++ rewrite (verify_lookup_nonblank _ _ _ SP) in M. cbn in M.
               destruct (get_meta_valid (world i) (i_root i) name A V) as (_ & _ & _ & L).
               destruct L as [L | [ran L]]; rewrite L in M; discriminate.
-      * destruct H as [(O & _ & ->) | [(O & _ & ->) | (O & _ & ->)]];
-          unfold model, exec_op in *; rewrite O in *; cbn.
+      * (* Uninstall executes nothing *)
+        intros ->. destruct H as [(O & _ & Hu) | [(O & _ & _) | (O & _ & Hu)]]; try discriminate.
+        unfold model, exec_op; rewrite O; cbn.
+        destruct (uninstall_valid (world i) (i_root i) name A V) as [U | (e & _ & _ & _ & U)];
+          rewrite U; reflexivity.
+      * (* Get and Verify remove nothing *)
+        intros ->. destruct H as [(O & _ & _) | [(O & _ & Hu) | (O & _ & _)]]; try discriminate;
+          unfold model, exec_op; rewrite O; cbn.
         -- destruct (get_meta_valid (world i) (i_root i) name A V) as (_ & _ & _ & L).
            destruct L as [L | [ran L]]; rewrite L; reflexivity.
-        -- destruct (uninstall_valid (world i) (i_root i) name A V) as [U | (e & _ & _ & _ & U)];
-             rewrite U; reflexivity.
         -- destruct (all_space name) eqn:SP.
            ++ now rewrite (verify_lookup_blank _ _ _ SP).
            ++ rewrite (verify_lookup_nonblank _ _ _ SP). cbn.
@@ -962,13 +967,13 @@ Proof.
   rewrite <- EX in IC. unfold install_ok.
   change (o_err (model i)) with (r_err (exec_op i)).
   destruct IC as [(S & N) | (n & Ic & V & N & S)].
-  - rewrite (contained_model i _ _ S). destruct (r_err (exec_op i)); auto. congruence.
+  - rewrite (contained_model i _ _ S). destruct (r_err (exec_op i)); auto; congruence.
   - assert (X : existsb (fun n0 => safe_name n0
                && contained i (model i) (Some (allowed (i_root i) n0)) (Some s))
               (candidates (world i) s) = true).
     { apply existsb_exists. exists n. split; [exact Ic|].
       now rewrite (valid_name_safe _ V), (contained_model i _ _ S). }
-    rewrite X. destruct (r_err (exec_op i)); auto using orb_true_r. congruence.
+    rewrite X. destruct (r_err (exec_op i)); auto using orb_true_r; congruence.
 Qed.
 
 Lemma model_spec_ok i : wf i = true -> spec_ok i (model i) = true.
@@ -981,7 +986,8 @@ Proof.
   - rewrite !andb_true_iff, negb_true_iff in W. destruct W as (_ & NS).
     apply String.eqb_neq in NS. eapply install_meets_oracle; eauto.
   - unfold model, exec_op. rewrite O. cbn. unfold list_plugins.
-    destruct ex; cbn; apply (proj2 (list_eqb_spec String.eqb String.eqb_eq _ _)); reflexivity.
+    destruct ex; cbn; [|reflexivity].
+    apply (proj2 (list_eqb_spec String.eqb String.eqb_eq _ _)); reflexivity.
   - unfold model, exec_op. rewrite O. cbn.
     destruct (single_componentb name) eqn:S; [|reflexivity]. rewrite A. cbn.
     apply String.eqb_eq. apply pjoin_single; [exact A | exact S].
@@ -1015,3 +1021,64 @@ Lemma verify_lookup_is_get w root name :
   let g := get_meta w root name in
   r_err r = r_err g /\ r_log r = r_log g /\ r_fs r = r_fs g.
 Proof. intros S. rewrite (verify_lookup_nonblank _ _ _ S). cbn. auto. Qed.
+
+(* ------------------------------------------------------------------ *)
+(* 9. explicit forms used by the property file                         *)
+
+Lemma insideb_src_only s q : insideb None (Some s) q = withinb s q.
+Proof. reflexivity. Qed.
+
+Lemma insideb_both a s q :
+  insideb (Some a) (Some s) q = true <-> withinb s q = true \/ withinb a q = true.
+Proof. unfold insideb. rewrite orb_true_iff. tauto. Qed.
+
+Lemma install_contained_explicit w root src ow :
+  is_abs root = true -> src <> "/" ->
+  let r := install w root src ow in
+  (r_err r <> ENone
+   /\ Forall (fun e => withinb src (eff_path e) = true) (r_log r)
+   /\ (forall q, withinb src q = true \/ fs_lookup q (r_fs r) = fs_lookup q w))
+  \/
+  (exists name,
+     In name (candidates w src) /\ valid_name name = true /\ r_err r <> EInvalid
+     /\ Forall (fun e => withinb src (eff_path e) = true
+                         \/ withinb (allowed root name) (eff_path e) = true) (r_log r)
+     /\ (forall q, withinb src q = true \/ withinb (allowed root name) q = true
+                   \/ fs_lookup q (r_fs r) = fs_lookup q w
+                   \/ (fs_lookup q w = None /\ fs_lookup q (r_fs r) = Some NDir
+                       /\ In q (prefixes (allowed root name))))).
+Proof.
+  intros A NS r. destruct (install_contained w root src ow A NS) as [((L & F & _) & N) | (n & Ic & V & N & (L & F & _))];
+    fold r in L, F, N.
+  - left. split; [exact N|]. split; [exact L|].
+    intros q. destruct (F q) as [E | [I | (a0 & Ea & _)]]; [now right | now left | discriminate].
+  - right. exists n. repeat (split; [assumption|]). split.
+    + eapply Forall_impl; [|exact L]. intros e I. now apply insideb_both.
+    + intros q. destruct (F q) as [E | [I | (a0 & Ea & X)]].
+      * right; right; now left.
+      * apply insideb_both in I. tauto.
+      * inversion Ea. subst a0. right; right; right. tauto.
+Qed.
+
+Lemma install_invalid_names w root src ow :
+  is_abs root = true -> src <> "/" ->
+  (forall n, In n (candidates w src) -> valid_name n = false) ->
+  let r := install w root src ow in
+  r_err r <> ENone
+  /\ Forall (fun e => withinb src (eff_path e) = true) (r_log r)
+  /\ (forall q, withinb src q = true \/ fs_lookup q (r_fs r) = fs_lookup q w).
+Proof.
+  intros A NS H r.
+  destruct (install_contained_explicit w root src ow A NS) as [X | (n & Ic & V & _)]; [exact X|].
+  rewrite (H n Ic) in V. discriminate.
+Qed.
+
+(* Install executes the source file before the derived name is examined: the
+   part of "no process execution" that does not hold for Install. *)
+Definition witness_fs : fs :=
+  [("/s", NDir); ("/s/notation-..", NFile true (Some ("..", 1%N))); ("/p", NDir); ("/p/r", NDir)].
+
+Lemma install_runs_source_witness :
+  let r := install witness_fs "/p/r" "/s/notation-.." true in
+  r_err r = EInvalid /\ In (EExec "/s/notation-.." true) (r_log r) /\ r_fs r = witness_fs.
+Proof. vm_compute. repeat split; auto. Qed.
